@@ -186,27 +186,39 @@ def scenario_trace(tid, sc, rn, rf):
 
 
 # ------------------------------------------------------------------------------------------------ M + R
-def se_cfg(K, chunk, tf, n, spacing, invs, constraint=True, gaps=True, innerfix=False, partial_raises=False, rel=False):
-    b = lambda x: "TRUE" if x else "FALSE"
+def b_(x):
+    return "TRUE" if x else "FALSE"
+
+
+def se_cfg(K, chunk, tf, n, spacing, invs, variant, constraint=True, gaps=True, partial_raises=False, rel=False):
+    innerfix, perminute = variant
     return ("SPECIFICATION Spec\nVIEW View\nCHECK_DEADLOCK FALSE\n"
-            "CONSTANTS K = %d Chunk = %d TF = %d NMin = %d Gaps = %s Spacing = %s InnerFix = %s PartialChunkRaises = %s "
-            "RelExits = %s\n" % (K, chunk, tf, n, b(gaps), b(spacing), b(innerfix), b(partial_raises), b(rel))
+            "CONSTANTS K = %d Chunk = %d TF = %d NMin = %d Gaps = %s Spacing = %s InnerFix = %s PerMinute = %s "
+            "PartialChunkRaises = %s RelExits = %s\n" % (K, chunk, tf, n, b_(gaps), b_(spacing), b_(innerfix), b_(perminute),
+                                                          b_(partial_raises), b_(rel))
             + ("CONSTRAINT InPre\n" if constraint else "") + "".join("INVARIANT %s\n" % i for i in invs))
 
 
 F_ = lambda o, c, h, l: {"o": o, "c": c, "h": h, "l": l}
-CANONICAL = {"chunk": 3, "tf": 3, "K": 3, "hist": [
-    {"k": "feed", "raw": [F_(1, 1, 1, 1)] * 3},
-    {"k": "decide", "row": {"cancel": False, "close": False, "entry": {"dir": 1, "p": 2, "sl": 1, "tp": 3, "rel": False, "d": 0}}},
+ABS = lambda d, p, sl, tp: {"cancel": False, "close": False, "entry": {"dir": d, "p": p, "sl": sl, "tp": tp, "rel": False, "d": 0}}
+# an entry filled at the raw open of a gapped minute inside a chunk: the loop without the inner jump fix also fills the stop-loss
+CANON_INNER = {"chunk": 3, "tf": 3, "K": 3, "hist": [
+    {"k": "feed", "raw": [F_(1, 1, 1, 1)] * 3}, {"k": "decide", "row": ABS(1, 2, 1, 3)},
     {"k": "feed", "raw": [F_(1, 1, 1, 1), F_(1, 1, 1, 1), F_(2, 2, 2, 1)]}, {"k": "decide", "row": IDLE},
     {"k": "feed", "raw": [F_(2, 2, 2, 2)] * 3}]}
+# stop-loss and take-profit both inside a red minute after the entry filled one minute earlier: the loop that does not
+# re-sort the re-selected candidates takes the stop-loss first, the per-minute loop (and the normal one) the take-profit
+CANON_PERMIN = {"chunk": 3, "tf": 3, "K": 3, "hist": [
+    {"k": "feed", "raw": [F_(3, 3, 3, 3)] * 3}, {"k": "decide", "row": ABS(1, 2, 1, 3)},
+    {"k": "feed", "raw": [F_(3, 2, 3, 2), F_(2, 1, 3, 1), F_(1, 1, 1, 1)]}, {"k": "decide", "row": IDLE}]}
 
 
-def detect_inner_fix():
-    """which variant of the fast loop does the tree contain?  (an input of the model, not a verdict): on the canonical
-    gapped-inner-minute scenario the unrepaired loop also fills the stop-loss, the repaired one does what the normal one does"""
-    (rn, rf), = run_scenarios([CANONICAL])
-    return rn["exc"] == "none" and rf["exc"] == "none" and rn["fills"] == rf["fills"]
+def detect_variant():
+    """which variant of the fast loop does the tree contain?  (an input of the model, never a verdict: TLC still judges
+    every replayed scenario against the model instantiated with this variant)"""
+    (an, af), (bn, bf) = run_scenarios([CANON_INNER, CANON_PERMIN])
+    same = lambda n, f: n["exc"] == "none" and f["exc"] == "none" and n["fills"] == f["fills"]
+    return (same(an, af), same(bn, bf))
 
 
 def scenarios_from(r, tag, chunk, tf, K, cap=None, rng=None):
@@ -221,14 +233,22 @@ def scenarios_from(r, tag, chunk, tf, K, cap=None, rng=None):
     return out
 
 
-def bind(ctx, scens, label, stats, fixed):
+def model_cfg_file(ctx, variant):
+    path = ctx.sub("cfg") + "/TraceSimModel-%s-%s.cfg" % (b_(variant[0]), b_(variant[1]))
+    with open(path, "w") as f:
+        f.write("SPECIFICATION Spec\nCONSTANT InnerFix = %s\nCONSTANT PerMinute = %s\nCONSTANT PartialChunkRaises = FALSE\n"
+                "INVARIANT Report\nCHECK_DEADLOCK FALSE\n" % (b_(variant[0]), b_(variant[1])))
+    return path
+
+
+def bind(ctx, scens, label, stats, variant):
     """run the scenarios on both real simulators and let TLC compare with the model's prediction"""
     if not scens:
         return []
     res = run_scenarios(scens)
     traces = [scenario_trace(j + 1, sc, rn, rf) for j, (sc, (rn, rf)) in enumerate(zip(scens, res))]
-    verdicts, results = tlc.validate_traces("TraceSimModel", "TraceSimModel_fixed.cfg" if fixed else "TraceSimModel.cfg", traces,
-                                            ctx.sub("bind-" + label), parts=16, timeout=1500)
+    verdicts, results = tlc.validate_traces("TraceSimModel", model_cfg_file(ctx, variant), traces, ctx.sub("bind-" + label), parts=16,
+                                            timeout=1500)
     for r in results:
         ctx.coverage["binding_states_checked_by_tlc"] = ctx.coverage.get("binding_states_checked_by_tlc", 0) + r.generated
     for tid, (pre, agree, v) in sorted(verdicts.items()):
@@ -237,10 +257,10 @@ def bind(ctx, scens, label, stats, fixed):
         stats['inside_quantifier'] += 1 if pre == "ok" else 0
         stats['real_runs'] += 2
         stats['fills'] += len(rn['fills'])
+        if rn['fills'] != rf['fills'] or rn['exc'] != rf['exc']:
+            stats['code_differs'] += 1
         if agree == 0:
             stats['model_says_simulators_differ'] += 1
-            if rn['fills'] != rf['fills'] or rn['exc'] != rf['exc']:
-                stats['and_the_code_differs_too'] += 1
         if v.startswith("c12:"):
             # real normal vs real fast differ on a scenario that TLC classified as inside antecedent + quantifier
             stats['c12'] += 1
@@ -255,17 +275,16 @@ def bind(ctx, scens, label, stats, fixed):
 
 def new_stats():
     return dict(scenarios=0, inside_quantifier=0, real_runs=0, fills=0, model_says_simulators_differ=0,
-                and_the_code_differs_too=0, c12=0, mismatch_in=[], mismatch_out=[])
+                code_differs=0, c12=0, mismatch_in=[], mismatch_out=[])
 
 
 def model_part(ctx):
-    """M: TLC explores the lock-step product.  Returns whether the tree contains the repaired fast loop."""
+    """M: TLC explores the lock-step product.  Returns the variant of the fast loop found in the tree."""
     from . import simruns as R
     R.warm_parent()
-    fixed = detect_inner_fix()
-    ctx.coverage["fast_loop_variant"] = "inner minutes jump-fixed (repaired)" if fixed else \
-        "inner minutes widened only, open kept (defect inner-gap-fill present)"
-    main_inv = "Equiv" if fixed else "EquivKnown"
+    variant = detect_variant()
+    ctx.coverage["fast_loop_variant"] = {"inner_minutes_jump_fixed": variant[0], "candidates_per_minute": variant[1]}
+    main_inv = "Equiv" if variant[0] else "EquivKnown"
     jobs, labels = [], []
     # (K, chunk, trading tf, minutes, relative exits)
     q = [(3, 2, 2, 4, True), (3, 3, 3, 6, False), (4, 2, 2, 4, False), (3, 2, 4, 8, False), (3, 1, 3, 6, True),
@@ -273,37 +292,46 @@ def model_part(ctx):
     t = q + [(3, 2, 2, 6, True), (4, 2, 2, 6, False), (4, 2, 2, 4, True), (3, 3, 3, 6, True), (5, 2, 2, 4, False), (4, 2, 4, 8, False),
              (4, 1, 3, 6, True), (5, 1, 1, 4, True), (3, 3, 3, 9, False)]
     for (K, ch, tf, n, rel) in ctx.pick(q, t):
-        jobs.append(dict(module="SimEquiv", cfg_text=se_cfg(K, ch, tf, n, True, [main_inv, "NoErr"], innerfix=fixed, rel=rel),
+        jobs.append(dict(module="SimEquiv", cfg_text=se_cfg(K, ch, tf, n, True, [main_inv, "NoErr"], variant, rel=rel),
                          workers=4, coverage=True, timeout=3000))
         labels.append("SimEquiv K=%d chunk=%d trading=%d minutes=%d rel-exits=%s invariant=%s" % (K, ch, tf, n, rel, main_inv))
+    if variant == (True, True):
+        # the repaired loop is the normal loop minute by minute: equivalence holds with the fill-count antecedent alone and
+        # even without any antecedent (stronger than C12; checked because it is what the code now promises)
+        for (K, ch, tf, n, rel) in ctx.pick([(3, 3, 3, 6, False)], [(3, 3, 3, 6, True), (4, 2, 2, 6, False)]):
+            jobs.append(dict(module="SimEquiv", cfg_text=se_cfg(K, ch, tf, n, False, ["EquivAlways", "NoErr"], variant, rel=rel,
+                                                                constraint=False), workers=4, coverage=True, timeout=3000))
+            labels.append("SimEquiv K=%d chunk=%d trading=%d minutes=%d rel-exits=%s invariant=EquivAlways (no antecedent)" % (K, ch, tf, n, rel))
     res = tlc.run_parallel(jobs, max_procs=4)
     for r, lab in zip(res, labels):
         ctx.add_tlc(r, lab)
         if r.violation:
-            raise Machinery("%s violates %s - a model-level counter-example inside the quantifier that is not of the known "
+            raise Machinery("%s violates %s - a model-level counter-example inside the quantifier that is not of a known "
                             "class; replay its hist on the code:\n%s" % (lab, r.violation["name"], r.violation["trace"][-4000:]))
         for a in ("Feed", "Compare", "DecideStep"):
             if r.coverage.get(a, (0, 0))[1] == 0:
                 raise Machinery("action %s never taken in %s" % (a, lab))
     # probes: the antecedent of Equiv is reachable with resting fills, closed trades, market fills and gapped chunks
     probes = ["ProbeRestingFill", "ProbeClosedTrade", "ProbeMarketFill", "ProbeExitAfterGap"]
-    pres = tlc.run_parallel([dict(module="SimEquiv", cfg_text=se_cfg(3, 2, 2, 6, True, [p], innerfix=fixed), workers=2, timeout=900)
-                             for p in probes], max_procs=4)
+    seeded = [("former inner loop (no jump fix inside the chunk, chunk-level candidate list)",
+               se_cfg(3, 2, 2, 4, True, ["Equiv"], (False, False), rel=True), "Equiv"),
+              ("trailing partial chunk treated as a full one",
+               se_cfg(3, 3, 3, 5, True, ["Equiv"], variant, partial_raises=True), "Equiv")]
+    pres = tlc.run_parallel([dict(module="SimEquiv", cfg_text=se_cfg(3, 2, 2, 6, True, [p], variant), workers=2, timeout=900)
+                             for p in probes] +
+                            [dict(module="SimEquiv", cfg_text=c, workers=2, timeout=900) for _, c, _ in seeded], max_procs=6)
     for p, r in zip(probes, pres):
         if not r.violation or r.violation["name"] != p:
             raise Machinery("non-vacuity probe %s is not reachable: Equiv would be vacuous" % p)
+    for (what, _, inv), r in zip(seeded, pres[len(probes):]):
+        if not r.violation or r.violation["name"] != inv:
+            raise Machinery("seeded model fault not reported by %s: %s" % (inv, what))
     ctx.coverage["antecedent_reachable_with"] = probes
-    # the repaired variant of the loop satisfies Equiv itself (no exclusion) - evidence for the proposed fix
-    if not fixed:
-        n = ctx.pick(4, 6)
-        r = tlc.run("SimEquiv", cfg_text=se_cfg(3, 2, 2, n, True, ["Equiv", "NoErr"], innerfix=True, rel=True), workers=4, timeout=1800)
-        ctx.add_tlc(r, "SimEquiv K=3 chunk=2 trading=2 minutes=%d rel-exits=True invariant=Equiv, REPAIRED loop (InnerFix)" % n)
-        if r.violation:
-            raise Machinery("the proposed repair (InnerFix) does not satisfy Equiv in the model: %s" % r.violation["trace"][-3000:])
-    return fixed
+    ctx.coverage["seeded_model_faults_reported"] = [w for w, _, _ in seeded]
+    return variant
 
 
-def binding_part(ctx, fixed):
+def binding_part(ctx, variant):
     """R + T for the model: TLC-generated and random scenarios replayed on the real simulators.  Returns the list of
     scenarios inside the quantifier where TLC rejects the model's description of a simulator (caller decides)."""
     rng = random.Random(ctx.seed + 12)
@@ -311,9 +339,16 @@ def binding_part(ctx, fixed):
     cap = ctx.pick(500, 2500)
     exp = [(3, 3, 3, 6, False), (3, 1, 3, 6, True)] if ctx.quick else \
           [(3, 3, 3, 6, True), (3, 1, 3, 6, True), (4, 1, 3, 6, False), (4, 1, 1, 4, True), (3, 3, 3, 9, False)]
-    eres = tlc.run_parallel([dict(module="SimEquiv", cfg_text=se_cfg(K, ch, tf, n, False, ["Export", "NoErr"], constraint=False,
-                                                                     innerfix=fixed, rel=rel),
-                                  workers=4, timeout=3000) for (K, ch, tf, n, rel) in exp], max_procs=4)
+    jobs = [dict(module="SimEquiv", cfg_text=se_cfg(K, ch, tf, n, False, ["Export", "NoErr"], variant, constraint=False, rel=rel),
+                 workers=4, timeout=3000) for (K, ch, tf, n, rel) in exp]
+    # witnesses of the FORMER loop's divergences (inside the quantifier / fill-count antecedent only): regression scenarios -
+    # replayed on the code and judged against the model of the loop as it is now
+    old = (False, False)
+    jobs.append(dict(module="SimEquiv", cfg_text=se_cfg(3, 3, 3, 6, True, ["Diverge", "NoErr"], old, rel=True), workers=4, timeout=3000))
+    jobs.append(dict(module="SimEquiv", cfg_text=se_cfg(3, 3, 3, 6, False, ["Diverge", "NoErr"], old), workers=4, timeout=3000))
+    # and of the loop as it is now (none expected when repaired)
+    jobs.append(dict(module="SimEquiv", cfg_text=se_cfg(3, 3, 3, 6, True, ["Diverge", "NoErr"], variant, rel=True), workers=4, timeout=3000))
+    eres = tlc.run_parallel(jobs, max_procs=4)
     n_exp = 0
     for (K, ch, tf, n, rel), r in zip(exp, eres):
         if r.violation:
@@ -321,66 +356,51 @@ def binding_part(ctx, fixed):
         ctx.add_tlc(r, "SimEquiv export K=%d chunk=%d trading=%d minutes=%d rel-exits=%s (no antecedent)" % (K, ch, tf, n, rel))
         sc = scenarios_from(r, "SCEN", ch, tf, K, cap, rng)
         n_exp += len(sc)
-        bind(ctx, sc, "export-%d-%d-%d-%d" % (K, ch, tf, n), stats, fixed)
-    # (a) inside antecedent + quantifier: every distinct chunk-end state where the model's simulators differ (none for the
-    #     repaired loop; the known class inner-gap-fill otherwise) - each witness is replayed, the real simulators must differ
-    # (b) with the statement's antecedent alone (<= 1 resting fill per trading candle, no spacing) they differ in more ways
-    # (c) the seeded former defect (trailing partial chunk raises)
-    dres = tlc.run_parallel([
-        dict(module="SimEquiv", cfg_text=se_cfg(3, 3, 3, 6, True, ["Diverge", "NoErr"], innerfix=fixed, rel=True), workers=4, timeout=3000),
-        dict(module="SimEquiv", cfg_text=se_cfg(3, 3, 3, 6, False, ["Diverge", "NoErr"], innerfix=fixed), workers=4, timeout=3000),
-        dict(module="SimEquiv", cfg_text=se_cfg(3, 3, 3, 5, True, ["Diverge", "NoErr"], innerfix=fixed, partial_raises=True), workers=4,
-             timeout=3000)], max_procs=3)
-    isc = scenarios_from(dres[0], "DIVERGE", 3, 3, 3, cap, rng)
-    dsc = scenarios_from(dres[1], "DIVERGE", 3, 3, 3, cap, rng)
-    rsc = scenarios_from(dres[2], "DIVERGE", 3, 3, 3)
-    if fixed and isc:
-        raise Machinery("the repaired model still diverges inside the quantifier (%d states)" % len(isc))
-    if not fixed and not isc:
-        raise Machinery("the unrepaired model shows no divergence inside the quantifier: the known class would be vacuous")
-    if not dsc and not fixed:
-        raise Machinery("no divergence without the spacing quantifier: the antecedent would be irrelevant (model too weak)")
-    if not rsc:
-        raise Machinery("seeded partial-chunk defect not visible in the model")
-    before = stats['c12']
-    bind(ctx, isc, "diverge-inside-quantifier", stats, fixed)
-    n_in_conf = stats['c12'] - before
-    before = stats['and_the_code_differs_too']
-    bind(ctx, dsc, "diverge-fills-only", stats, fixed)
-    n_div_conf = stats['and_the_code_differs_too'] - before
+        bind(ctx, sc, "export-%d-%d-%d-%d" % (K, ch, tf, n), stats, variant)
+    old_in = scenarios_from(eres[len(exp)], "DIVERGE", 3, 3, 3, cap, rng)
+    old_out = scenarios_from(eres[len(exp) + 1], "DIVERGE", 3, 3, 3, cap, rng)
+    now_in = scenarios_from(eres[len(exp) + 2], "DIVERGE", 3, 3, 3, cap, rng)
+    if not old_in or not old_out:
+        raise Machinery("the former inner loop shows no divergence in the model (%d / %d): the regression scenarios are gone"
+                        % (len(old_in), len(old_out)))
+    if variant[0] and now_in:
+        raise Machinery("the model of the repaired loop still diverges inside the quantifier (%d states)" % len(now_in))
+    before = (stats['c12'], stats['code_differs'])
+    bind(ctx, old_in, "former-divergence-inside-quantifier", stats, variant)
+    bind(ctx, old_out, "former-divergence-fill-count-only", stats, variant)
+    bind(ctx, now_in, "divergence-inside-quantifier", stats, variant)
+    reg = {"scenarios": len(old_in) + len(old_out) + len(now_in), "c12_violations_on_code": stats['c12'] - before[0],
+           "code_still_differs": stats['code_differs'] - before[1]}
     # T (model binding): random scenarios, larger lattices and real 1m / 3m / 5m / 15m timeframes, ragged tails
     n_rand = ctx.pick(400, 6000)
     rs = [rand_scenario(rng, ragged=(j % 12 == 0)) for j in range(n_rand)]
     for off in range(0, n_rand, 1500):
-        bind(ctx, rs[off:off + 1500], "random-%d" % off, stats, fixed)
+        bind(ctx, rs[off:off + 1500], "random-%d" % off, stats, variant)
     ctx.coverage.update({
         "model_scenarios_replayed_on_code": stats['scenarios'], "of_which_inside_the_quantifier": stats['inside_quantifier'],
         "model_replay_real_runs": stats['real_runs'],
         "model_replay_fills": stats['fills'], "tlc_exported_scenarios": n_exp,
         "model_says_simulators_differ": stats['model_says_simulators_differ'],
-        "of_which_the_code_differs_too": stats['and_the_code_differs_too'],
-        "divergences_inside_the_quantifier": {"found_by_tlc": len(isc), "reproduced_on_code": n_in_conf},
-        "divergences_with_fill_count_antecedent_only": {"found_by_tlc": len(dsc), "reproduced_on_code": n_div_conf},
-        "seeded_partial_chunk_defect_divergences_found_by_tlc": len(rsc),
+        "scenarios_where_the_real_simulators_differ": stats['code_differs'],
+        "former_divergence_witnesses_replayed": reg,
         "model_binding_mismatches_inside_the_quantifier": len(stats['mismatch_in']),
         "model_binding_mismatches_outside_the_quantifier": len(stats['mismatch_out']),
-        "divergence_sample": ((isc or dsc or rsc)[0]["hist"]),
+        "former_divergence_sample": old_in[0]["hist"],
     })
     if stats['mismatch_out']:
         ctx.notes.append("SimCore mispredicts a simulator on %d scenario(s) OUTSIDE the precondition of C12 (first: %s) - the "
                          "model is out of date there; not a C12 verdict" % (len(stats['mismatch_out']),
                                                                           json.dumps(stats['mismatch_out'][0])[:600]))
-    ctx.notes.append("outside the quantifier (exits NOT spaced wider than a trading candle moves) but with <= 1 resting fill per "
-                     "trading candle in the normal run: TLC found %d chunk-end states on lattice 3 / chunk 3 where the fast simulator "
-                     "differs from the normal one; %d reproduced on the real simulators%s" % (
-                         len(dsc), n_div_conf, " (none: the repaired loop agrees on the fill-count antecedent alone)" if not dsc else ""))
+    ctx.notes.append("TLC lists %d + %d chunk-end states (lattice 3, chunk 3) in which the FORMER fast loop differs from the normal "
+                     "simulator inside the quantifier / with the fill-count antecedent only; replayed on the tree: the real "
+                     "simulators still differ on %d of them" % (len(old_in), len(old_out), reg["code_still_differs"]))
     return stats['mismatch_in']
 
 
 def replay_scenario(ctx, p):
     from . import simruns as R
     R.warm_parent()
-    fixed = detect_inner_fix()
+    variant = detect_variant()
     stats = new_stats()
-    res = bind(ctx, [p["scenario"]], "replay", stats, fixed)
+    res = bind(ctx, [p["scenario"]], "replay", stats, variant)
     print("replay: normal %s fast %s; model mismatches %s" % (res[0][0], res[0][1], stats['mismatch_in'] + stats['mismatch_out']))
